@@ -436,62 +436,92 @@ impl<T: VhostUserBackendMut> VhostUserBackend for Mutex<T> {
     type Vring = T::Vring;
 
     fn num_queues(&self) -> usize {
+        #[cfg(feature = "verif-hooks")]
+        vhost::verif::before_mutex(self, "backend.lock");
         self.lock().unwrap().num_queues()
     }
 
     fn max_queue_size(&self) -> usize {
+        #[cfg(feature = "verif-hooks")]
+        vhost::verif::before_mutex(self, "backend.lock");
         self.lock().unwrap().max_queue_size()
     }
 
     fn features(&self) -> u64 {
+        #[cfg(feature = "verif-hooks")]
+        vhost::verif::before_mutex(self, "backend.lock");
         self.lock().unwrap().features()
     }
 
     fn acked_features(&self, features: u64) {
+        #[cfg(feature = "verif-hooks")]
+        vhost::verif::before_mutex(self, "backend.lock");
         self.lock().unwrap().acked_features(features)
     }
 
     fn protocol_features(&self) -> VhostUserProtocolFeatures {
+        #[cfg(feature = "verif-hooks")]
+        vhost::verif::before_mutex(self, "backend.lock");
         self.lock().unwrap().protocol_features()
     }
 
     fn reset_device(&self) {
+        #[cfg(feature = "verif-hooks")]
+        vhost::verif::before_mutex(self, "backend.lock");
         self.lock().unwrap().reset_device()
     }
 
     fn set_event_idx(&self, enabled: bool) {
+        #[cfg(feature = "verif-hooks")]
+        vhost::verif::before_mutex(self, "backend.lock");
         self.lock().unwrap().set_event_idx(enabled)
     }
 
     fn get_config(&self, offset: u32, size: u32) -> Vec<u8> {
+        #[cfg(feature = "verif-hooks")]
+        vhost::verif::before_mutex(self, "backend.lock");
         self.lock().unwrap().get_config(offset, size)
     }
 
     fn set_config(&self, offset: u32, buf: &[u8]) -> Result<()> {
+        #[cfg(feature = "verif-hooks")]
+        vhost::verif::before_mutex(self, "backend.lock");
         self.lock().unwrap().set_config(offset, buf)
     }
 
     fn update_memory(&self, mem: GM<Self::Bitmap>) -> Result<()> {
+        #[cfg(feature = "verif-hooks")]
+        vhost::verif::before_mutex(self, "backend.lock");
         self.lock().unwrap().update_memory(mem)
     }
 
     fn set_backend_req_fd(&self, backend: Backend) {
+        #[cfg(feature = "verif-hooks")]
+        vhost::verif::before_mutex(self, "backend.lock");
         self.lock().unwrap().set_backend_req_fd(backend)
     }
 
     fn get_shared_object(&self, uuid: VhostUserSharedMsg) -> Result<File> {
+        #[cfg(feature = "verif-hooks")]
+        vhost::verif::before_mutex(self, "backend.lock");
         self.lock().unwrap().get_shared_object(uuid)
     }
 
     fn set_gpu_socket(&self, gpu_backend: GpuBackend) -> Result<()> {
+        #[cfg(feature = "verif-hooks")]
+        vhost::verif::before_mutex(self, "backend.lock");
         self.lock().unwrap().set_gpu_socket(gpu_backend)
     }
 
     fn queues_per_thread(&self) -> Vec<u64> {
+        #[cfg(feature = "verif-hooks")]
+        vhost::verif::before_mutex(self, "backend.lock");
         self.lock().unwrap().queues_per_thread()
     }
 
     fn exit_event(&self, thread_index: usize) -> Option<(EventConsumer, EventNotifier)> {
+        #[cfg(feature = "verif-hooks")]
+        vhost::verif::before_mutex(self, "backend.lock");
         self.lock().unwrap().exit_event(thread_index)
     }
 
@@ -502,6 +532,8 @@ impl<T: VhostUserBackendMut> VhostUserBackend for Mutex<T> {
         vrings: &[Self::Vring],
         thread_id: usize,
     ) -> Result<()> {
+        #[cfg(feature = "verif-hooks")]
+        vhost::verif::before_mutex(self, "backend.lock");
         self.lock()
             .unwrap()
             .handle_event(device_event, evset, vrings, thread_id)
@@ -513,16 +545,22 @@ impl<T: VhostUserBackendMut> VhostUserBackend for Mutex<T> {
         phase: VhostTransferStatePhase,
         file: File,
     ) -> Result<Option<File>> {
+        #[cfg(feature = "verif-hooks")]
+        vhost::verif::before_mutex(self, "backend.lock");
         self.lock()
             .unwrap()
             .set_device_state_fd(direction, phase, file)
     }
 
     fn check_device_state(&self) -> Result<()> {
+        #[cfg(feature = "verif-hooks")]
+        vhost::verif::before_mutex(self, "backend.lock");
         self.lock().unwrap().check_device_state()
     }
 
     fn get_shmem_config(&self) -> Result<VhostUserShMemConfig> {
+        #[cfg(feature = "verif-hooks")]
+        vhost::verif::before_mutex(self, "backend.lock");
         self.lock().unwrap().get_shmem_config()
     }
 }
@@ -532,62 +570,92 @@ impl<T: VhostUserBackendMut> VhostUserBackend for RwLock<T> {
     type Vring = T::Vring;
 
     fn num_queues(&self) -> usize {
+        #[cfg(feature = "verif-hooks")]
+        vhost::verif::before_read(self, "backend.read");
         self.read().unwrap().num_queues()
     }
 
     fn max_queue_size(&self) -> usize {
+        #[cfg(feature = "verif-hooks")]
+        vhost::verif::before_read(self, "backend.read");
         self.read().unwrap().max_queue_size()
     }
 
     fn features(&self) -> u64 {
+        #[cfg(feature = "verif-hooks")]
+        vhost::verif::before_read(self, "backend.read");
         self.read().unwrap().features()
     }
 
     fn acked_features(&self, features: u64) {
+        #[cfg(feature = "verif-hooks")]
+        vhost::verif::before_write(self, "backend.write");
         self.write().unwrap().acked_features(features)
     }
 
     fn protocol_features(&self) -> VhostUserProtocolFeatures {
+        #[cfg(feature = "verif-hooks")]
+        vhost::verif::before_read(self, "backend.read");
         self.read().unwrap().protocol_features()
     }
 
     fn reset_device(&self) {
+        #[cfg(feature = "verif-hooks")]
+        vhost::verif::before_write(self, "backend.write");
         self.write().unwrap().reset_device()
     }
 
     fn set_event_idx(&self, enabled: bool) {
+        #[cfg(feature = "verif-hooks")]
+        vhost::verif::before_write(self, "backend.write");
         self.write().unwrap().set_event_idx(enabled)
     }
 
     fn get_config(&self, offset: u32, size: u32) -> Vec<u8> {
+        #[cfg(feature = "verif-hooks")]
+        vhost::verif::before_read(self, "backend.read");
         self.read().unwrap().get_config(offset, size)
     }
 
     fn set_config(&self, offset: u32, buf: &[u8]) -> Result<()> {
+        #[cfg(feature = "verif-hooks")]
+        vhost::verif::before_write(self, "backend.write");
         self.write().unwrap().set_config(offset, buf)
     }
 
     fn update_memory(&self, mem: GM<Self::Bitmap>) -> Result<()> {
+        #[cfg(feature = "verif-hooks")]
+        vhost::verif::before_write(self, "backend.write");
         self.write().unwrap().update_memory(mem)
     }
 
     fn set_backend_req_fd(&self, backend: Backend) {
+        #[cfg(feature = "verif-hooks")]
+        vhost::verif::before_write(self, "backend.write");
         self.write().unwrap().set_backend_req_fd(backend)
     }
 
     fn get_shared_object(&self, uuid: VhostUserSharedMsg) -> Result<File> {
+        #[cfg(feature = "verif-hooks")]
+        vhost::verif::before_write(self, "backend.write");
         self.write().unwrap().get_shared_object(uuid)
     }
 
     fn set_gpu_socket(&self, gpu_backend: GpuBackend) -> Result<()> {
+        #[cfg(feature = "verif-hooks")]
+        vhost::verif::before_write(self, "backend.write");
         self.write().unwrap().set_gpu_socket(gpu_backend)
     }
 
     fn queues_per_thread(&self) -> Vec<u64> {
+        #[cfg(feature = "verif-hooks")]
+        vhost::verif::before_read(self, "backend.read");
         self.read().unwrap().queues_per_thread()
     }
 
     fn exit_event(&self, thread_index: usize) -> Option<(EventConsumer, EventNotifier)> {
+        #[cfg(feature = "verif-hooks")]
+        vhost::verif::before_read(self, "backend.read");
         self.read().unwrap().exit_event(thread_index)
     }
 
@@ -598,6 +666,8 @@ impl<T: VhostUserBackendMut> VhostUserBackend for RwLock<T> {
         vrings: &[Self::Vring],
         thread_id: usize,
     ) -> Result<()> {
+        #[cfg(feature = "verif-hooks")]
+        vhost::verif::before_write(self, "backend.write");
         self.write()
             .unwrap()
             .handle_event(device_event, evset, vrings, thread_id)
@@ -609,16 +679,22 @@ impl<T: VhostUserBackendMut> VhostUserBackend for RwLock<T> {
         phase: VhostTransferStatePhase,
         file: File,
     ) -> Result<Option<File>> {
+        #[cfg(feature = "verif-hooks")]
+        vhost::verif::before_write(self, "backend.write");
         self.write()
             .unwrap()
             .set_device_state_fd(direction, phase, file)
     }
 
     fn check_device_state(&self) -> Result<()> {
+        #[cfg(feature = "verif-hooks")]
+        vhost::verif::before_read(self, "backend.read");
         self.read().unwrap().check_device_state()
     }
 
     fn get_shmem_config(&self) -> Result<VhostUserShMemConfig> {
+        #[cfg(feature = "verif-hooks")]
+        vhost::verif::before_read(self, "backend.read");
         self.read().unwrap().get_shmem_config()
     }
 }
